@@ -46,19 +46,21 @@ Theorem C18_fee_collector_is_blocked :
   blocked_override_wiring = "blockAccAddrs".
 Proof. vm_compute. split; reflexivity. Qed.
 
-(** FeePayLogic computes, per fee coin, RoundInt(QuoInt64(MulInt(share, amount), n)) and
-    settleFeePayments sends that one coin set from the fee collector to every recipient, on the
-    tx's own fee filtered by getAllowedFees — the shape modelled by [Model.per_recipient],
-    [Model.fee_pay_logic], [Model.pay_all].  (R receiver, P<i> i-th parameter, L<k> k-th local.) *)
+(** FeePayLogic adds, per fee coin, NewCoin(denom, RoundInt(QuoInt64(MulInt(share, amount), n)));
+    settleFeePayments sends FeePayLogic(getAllowedFees(params, tx fee), params.DeveloperShares,
+    number of recipients) from the fee collector to every recipient, in one loop over the
+    recipients; devGasPayout feeds it the recipients of the tx's own messages and the tx's own fee,
+    behind the EnableFeeShare guard — the shape modelled by [Model.per_recipient],
+    [Model.fee_pay_logic], [Model.pay_all], [Model.ante].
+    Normal form of the extractor: R receiver, P<i> i-th parameter, locals inlined, loop variable =
+    elem(ranged expression); independent of local names, early returns, range vs index loops. *)
 Theorem C18_payout_formula_as_modelled :
-  reward_expr = "P1.MulInt(L1.Amount).QuoInt64(int64(P2)).RoundInt()" /\
-  reward_added = "L0=L0.Add(sdk.NewCoin(L1.Denom,L2))" /\
-  reward_range = "P0.Sort()" /\
-  list_eqb settle_calls
-    ["getAllowedFees(P2,P3)"; "FeePayLogic(L0,L3,L1)";
-     "R.bankKeeper.SendCoinsFromModuleToAccount(P0,authtypes.FeeCollectorName,L6,L4)"] = true /\
-  payout_fee_source = "P1.GetFee()" /\
-  payout_guard_enabled = true /\ payout_guard_empty = true.
+  reward_coin = "sdk.NewCoin(elem(P0.Sort()).Denom,P1.MulInt(elem(P0.Sort()).Amount).QuoInt64(int64(P2)).RoundInt())" /\
+  send_call = "R.bankKeeper.SendCoinsFromModuleToAccount(P0,authtypes.FeeCollectorName,elem(P1),FeePayLogic(getAllowedFees(P2,P3),P2.DeveloperShares,len(P1)))" /\
+  send_loop = "range(P1)" /\ send_call_sites = 1 /\
+  list_eqb settle_args
+    ["P0"; "R.getWithdrawAddressesFromMsgs(P0,P1.GetMsgs())#0"; "R.devgasKeeper.GetParams(P0)"; "P1.GetFee()"] = true /\
+  payout_guard_enabled = true.
 Proof. vm_compute. repeat split; reflexivity. Qed.
 
 (** getAllowedFees adds a fee coin at most once, however often AllowedDenoms names its denom
@@ -67,26 +69,25 @@ Theorem C18_allowed_fee_coin_counted_once :
   allowed_fees_break_after_first_match = true /\ allowed_fees_adds_per_match = 1.
 Proof. vm_compute. split; reflexivity. Qed.
 
-(** Recipients are collected from the transaction's own message list only, and only from
-    MsgExecuteContract messages: no unwrapping of carriers, no recursion. *)
+(** Recipients are collected by one loop over the transaction's own message list, only from
+    MsgExecuteContract messages, looking only into the fee-share registry: no unwrapping of
+    carriers, no recursion, no other helper. *)
 Theorem C18_recipients_top_level_only :
   list_eqb recipients_asserted_types ["*wasmtypes.MsgExecuteContract"] = true /\
-  recipients_range = "P1" /\
-  occurrences "R.getWithdrawAddressesFromMsgs" recipients_calls = 0 /\
-  list_eqb recipients_calls
-    ["make"; "sdk.AccAddressFromBech32"; "R.devgasKeeper.GetFeeShare"; "L4.GetWithdrawerAddr"; "L5.Empty"; "append"] = true.
+  list_eqb recipients_ranges ["P1"] = true /\
+  list_eqb recipients_local_calls ["R.devgasKeeper.GetFeeShare"] = true.
 Proof. vm_compute. repeat split; reflexivity. Qed.
 
 (** Every registry handler reads the params first, checks the authority (factory rule or
     admin-or-creator) on the address that signed the message, and only then writes. *)
 Theorem C18_registry_writes_are_guarded :
   list_eqb calls_RegisterFeeShare
-    ["k.GetParams"; "k.IsFeeShareRegistered"; "k.isContractCreatedFromFactory";
-     "k.GetContractAdminOrCreatorAddress"; "k.SetFeeShare"] = true /\
+    ["R.GetParams"; "R.IsFeeShareRegistered"; "R.isContractCreatedFromFactory";
+     "R.GetContractAdminOrCreatorAddress"; "R.SetFeeShare"] = true /\
   list_eqb calls_UpdateFeeShare
-    ["k.GetParams"; "k.GetFeeShare"; "k.GetContractAdminOrCreatorAddress"; "k.SetFeeShare"] = true /\
+    ["R.GetParams"; "R.GetFeeShare"; "R.GetContractAdminOrCreatorAddress"; "R.SetFeeShare"] = true /\
   list_eqb calls_CancelFeeShare
-    ["k.GetParams"; "k.GetFeeShare"; "k.GetContractAdminOrCreatorAddress"; "k.DevGasStore.Delete"] = true /\
+    ["R.GetParams"; "R.GetFeeShare"; "R.GetContractAdminOrCreatorAddress"; "R.DevGasStore.Delete"] = true /\
   auth_error_returned_UpdateFeeShare = true /\ auth_error_returned_CancelFeeShare = true /\
   auth_checked_field_UpdateFeeShare = signer_field_MsgUpdateFeeShare /\
   auth_checked_field_CancelFeeShare = signer_field_MsgCancelFeeShare /\
